@@ -172,6 +172,10 @@ protected:
     ifFltCon_ = 1;
     if (int n_lcons = GetModel().num_logical_cons())
       for (int i = 0; i < n_lcons; ++i) {
+        if (!GetModel().logical_con(i).expr())   // counted in the NL header
+          MP_RAISE("Logical constraint _slogcon["  // but has no L segment
+                   + std::to_string(i+1)
+                   + "] is not defined in the NL file");
         MPD( ExportLogCon(i) );
         MP_DISPATCH( ConvertLogicalCon( i ) );
       }
